@@ -531,6 +531,16 @@ impl Basic {
                 }
             }
             TimedOp::Suspend { client, ms } => {
+                // Only once the handshake is confirmed: probe timeouts of a few tens of
+                // milliseconds double a dozen times during a suspension of seconds, and before
+                // the handshake is confirmed nothing resets that back-off quickly (1-RTT packets
+                // cannot be acknowledged yet, ACKs wait behind the congestion window): the ends
+                // then find each other again only after hours, which no budget can tell from a
+                // deadlock.
+                let confirmed = self.client_incs.first().is_some_and(|i| self.wl.sides.get(i).is_some_and(|s| s.confirmed));
+                if !confirmed {
+                    return;
+                }
                 let node = if client { self.clients[0] } else { self.server };
                 let until = w.now + ms * MS;
                 let e = w.suspended.entry(node).or_insert(0);
